@@ -689,6 +689,8 @@ def class_source(decls, name, split, src, tkind=None, hier=None, mkobj=None, sm=
 
 
 _MODN = [0]
+_KEEP_MODULES = [False]     # a robot process: MagicRobot evaluates the components' annotations again (injection), the
+                            # user's module stays imported, as it is in a real program
 
 
 def make_class_src(mt, decls, name, split, src, tkind=None, hier=None, pool=None, sm=None):
@@ -706,7 +708,8 @@ def make_class_src(mt, decls, name, split, src, tkind=None, hier=None, pool=None
     try:
         exec(compile(text, "<%s>" % modname, "exec"), mod.__dict__)
     finally:
-        del sys.modules[modname]
+        if not _KEEP_MODULES[0]:
+            del sys.modules[modname]
     return mod.__dict__[name]
 
 
@@ -1615,7 +1618,7 @@ def case_eff_src(case, k):
 #       constructed up front, in order); constructing an instance of a StateMachine class (case["sm"])
 #       assigns cls.state_names / cls.state_descriptions anew
 def is_env(case):
-    return bool(case.get("clock") or case.get("lazy") or any(x is not None for x in (case.get("sm") or []))
+    return bool(case.get("robot") or case.get("clock") or case.get("lazy") or any(x is not None for x in (case.get("sm") or []))
                 or any(op[0] in ("tick", "ntt", "clsset", "new") or (op[0] == "ntw" and len(op) > 4) for op in case["ops"]))
 
 
@@ -1727,8 +1730,6 @@ def exec_case(mt, case):
 
 def exec_case_clocked(mt, case, paused):
     keep = []                                       # keeps every entry / publisher alive
-    writer = NtWriter()
-    keep.append(writer)
     pool = {}                                       # the shared tunable objects of this history
     info, valid = annotate(case)
     if not valid:
@@ -1744,95 +1745,103 @@ def exec_case_clocked(mt, case, paused):
         objs = [None if case.get("lazy") else clss[c]() for c in case["insts"]]
     except Exception as e:
         return [["bad", "constructing an instance raised %s: %s" % (type(e).__name__, str(e)[:80])]] * len(case["ops"])
-    isbound = set()
-    obs = []
-    for n, op in enumerate(case["ops"]):
-        try:
-            if op[0] == "new":
-                objs[op[1]] = clss[case["insts"][op[1]]]()
-                obs.append(["done"])
-                continue
-            if op[0] == "tick":
-                if paused:
-                    import hal.simulation
-                    hal.simulation.stepTiming(int(op[1]))
-                obs.append(["done"])
-                continue
-            if op[0] == "ntt":
-                t = nt_stamp(op[1])
-                obs.append(["stamp", 0 if t == 0 else t - base + CLOCK0] if paused else ["any"])
-                continue
-            if op[0] == "clsset":
-                m = op[2]
-                if is_plain(m):
-                    setattr(clss[op[1]], m["attr"], to_py(m["plain"]))
-                else:                                # (no __set_name__ call: the type comes from the default)
-                    setattr(clss[op[1]], m["attr"], mt.tunable(to_py(m["default"]), **tunable_kwargs(m)))
-                obs.append(["done"])
-                continue
-            if op[0] == "truth":
-                # no library call: the owner's own state changes (an ordinary class has none)
-                tk = inst_tkind(case, op[1])
-                if tk is None:
-                    obs.append(["done"])
-                elif set_truth(objs[op[1]], tk, op[2]) == (not truth_is_falsy(tk, op[2])):
-                    obs.append(["done"])
-                else:
-                    obs.append(["bad", "harness: bool(owner) did not follow its state"])
-                continue
-            if op[0] in ("pyw", "pyr") and info[n]["state"] in ("unbound", "stale"):
-                # not a bound tunable (instance not set up, private name, or the class attribute was
-                # assigned after the instance was set up): the property leaves the behaviour open -> masked
-                try:
-                    if op[0] == "pyw":
-                        setattr(objs[op[1]], op[2], to_py(op[3]))
-                    else:
-                        getattr(objs[op[1]], op[2])
-                except Exception:
-                    pass
-                obs.append(["any"])
-                continue
-            if op[0] == "setup":
-                isbound.add(op[1])
-                keep.append(dict(objs[op[1]].__dict__))          # old entries stay published
-                try:
-                    if op[2] == "components" and len(obs) % 2:
-                        mt.setup_tunables(objs[op[1]], op[3])    # default prefix argument
-                    else:
-                        mt.setup_tunables(objs[op[1]], op[3], op[2])
-                    obs.append(["setup", True])
-                except Exception as e:
-                    obs.append(["setup", False, type(e).__name__])
-            elif op[0] == "pyw":
-                try:
-                    setattr(objs[op[1]], op[2], to_py(op[3]))
-                    obs.append(["wrote"])
-                except (AttributeError, KeyError) as e:
-                    obs.append(["err", type(e).__name__])
-            elif op[0] == "pyr":
-                try:
-                    v = getattr(objs[op[1]], op[2])
-                except (AttributeError, KeyError) as e:
-                    obs.append(["err", type(e).__name__])
-                    continue
-                d = info[n].get("decl")
-                if isinstance(v, mt.tunable):
-                    obs.append(["self"])                          # the descriptor object came back
-                    continue
-                try:
-                    obs.append(["val", from_py(v, d["kind"][0], d["kind"][1])])
-                except (ValueError, TypeError):
-                    obs.append(["bad", repr(v)])
-            elif op[0] == "ntw":
-                sent = writer.write(op[1], op[2], op[3], op[4] if len(op) > 4 else None)
-                obs.append(["wrote"] if sent else ["skipped"])
-            elif op[0] == "ntr":
-                obs.append(["nt", nt_read(op[1])])
-        except Exception as e:                      # anything unexpected is an observation too
-            obs.append(["bad", "%s: %s" % (type(e).__name__, str(e)[:80])])
-    keep.append(objs)
-    keep.append(clss)
+    runner = OpRunner(mt, case, paused, clss, objs, info, base)
+    obs = [runner.run(n, op) for n, op in enumerate(case["ops"])]
+    keep.append(runner)
     return obs
+
+
+class OpRunner:
+    """executes the operations of a history one by one against the implementation (from wherever it is
+    called: the harness's own loop, or a component's execute() inside a MagicRobot pass)."""
+
+    def __init__(self, mt, case, paused, clss, objs, info, base):
+        self.mt, self.case, self.paused, self.clss, self.objs, self.info, self.base = mt, case, paused, clss, objs, info, base
+        self.writer = NtWriter()
+        self.keep = []
+        self.count = 0
+
+    def run(self, n, op):
+        try:
+            o = self._run(n, op)
+        except Exception as e:                      # anything unexpected is an observation too
+            o = ["bad", "%s: %s" % (type(e).__name__, str(e)[:80])]
+        self.count += 1
+        return o
+
+    def _run(self, n, op):
+        mt, case, objs, clss, info, paused = self.mt, self.case, self.objs, self.clss, self.info, self.paused
+        if op[0] == "new":
+            objs[op[1]] = clss[case["insts"][op[1]]]()
+            return ["done"]
+        if op[0] == "tick":
+            if paused:
+                import hal.simulation
+                hal.simulation.stepTiming(int(op[1]))
+            return ["done"]
+        if op[0] == "ntt":
+            t = nt_stamp(op[1])
+            return ["stamp", 0 if t == 0 else t - self.base + CLOCK0] if paused else ["any"]
+        if op[0] == "clsset":
+            m = op[2]
+            if is_plain(m):
+                setattr(clss[op[1]], m["attr"], to_py(m["plain"]))
+            else:                                    # (no __set_name__ call: the type comes from the default)
+                setattr(clss[op[1]], m["attr"], mt.tunable(to_py(m["default"]), **tunable_kwargs(m)))
+            return ["done"]
+        if op[0] == "truth":
+            # no library call: the owner's own state changes (an ordinary class has none)
+            tk = inst_tkind(case, op[1])
+            if tk is None:
+                return ["done"]
+            if set_truth(objs[op[1]], tk, op[2]) == (not truth_is_falsy(tk, op[2])):
+                return ["done"]
+            return ["bad", "harness: bool(owner) did not follow its state"]
+        if op[0] in ("pyw", "pyr") and info[n]["state"] in ("unbound", "stale"):
+            # not a bound tunable (instance not set up, private name, or the class attribute was
+            # assigned after the instance was set up): the property leaves the behaviour open -> masked
+            try:
+                if op[0] == "pyw":
+                    setattr(objs[op[1]], op[2], to_py(op[3]))
+                else:
+                    getattr(objs[op[1]], op[2])
+            except Exception:
+                pass
+            return ["any"]
+        if op[0] == "setup":
+            self.keep.append(dict(objs[op[1]].__dict__))          # old entries stay published
+            try:
+                if op[2] == "components" and self.count % 2:
+                    mt.setup_tunables(objs[op[1]], op[3])    # default prefix argument
+                else:
+                    mt.setup_tunables(objs[op[1]], op[3], op[2])
+                return ["setup", True]
+            except Exception as e:
+                return ["setup", False, type(e).__name__]
+        if op[0] == "pyw":
+            try:
+                setattr(objs[op[1]], op[2], to_py(op[3]))
+                return ["wrote"]
+            except (AttributeError, KeyError) as e:
+                return ["err", type(e).__name__]
+        if op[0] == "pyr":
+            try:
+                v = getattr(objs[op[1]], op[2])
+            except (AttributeError, KeyError) as e:
+                return ["err", type(e).__name__]
+            d = info[n].get("decl")
+            if isinstance(v, mt.tunable):
+                return ["self"]                              # the descriptor object came back
+            try:
+                return ["val", from_py(v, d["kind"][0], d["kind"][1])]
+            except (ValueError, TypeError):
+                return ["bad", repr(v)]
+        if op[0] == "ntw":
+            sent = self.writer.write(op[1], op[2], op[3], op[4] if len(op) > 4 else None)
+            return ["wrote"] if sent else ["skipped"]
+        if op[0] == "ntr":
+            return ["nt", nt_read(op[1])]
+        return ["bad", "harness: unknown op %r" % (op[0],)]
 
 
 CLOCK0 = 1000                                       # the model's clock at the start of a history
@@ -2806,6 +2815,320 @@ def robot_file(out):
 
 
 # ---------------------------------------------------------------------------
+# accesses made from INSIDE the framework's own loop functions
+#   A loop case is a history (same fields as above, always an environment history) whose instances are the
+#   COMPONENTS of one real MagicRobot (own process: a robot is built once per process):
+#     case["robot"] = True, case["names"][i] = attribute name of component i (bound as /components/<name>),
+#     case["passes"] = ["enabled" | "periodics", ..]   pass p is robot.teleopPeriodic(); robot._enabled_periodic()
+#                                                     resp. robot._do_periodics() (the body of the disabled loop)
+#     case["where"][n] = where op n is executed:
+#         ["pre"]            before the robot exists (a dashboard value that is already there)
+#         ["init"]           the setup op of a component: done by robotInit() itself
+#         ["between", p]     by the harness, before pass p (p = number of passes: after the last one)
+#         ["teleop", p]      inside the robot's teleopPeriodic() of pass p
+#         ["execute", p, i]  inside component i's execute() during _enabled_periodic() of pass p
+#         ["feedback", p, i] inside a @feedback getter of component i during _do_periodics() of pass p
+#   The ops are listed in execution order; NT-client writes issued from inside a pass go through a separate
+#   publisher (the dashboard).  For the model and the oracle the history is the flat list: whatever framework
+#   function an access is made from, it is an access like any other (Proofs: loop_structure_irrelevant).
+# ---------------------------------------------------------------------------
+def loop_worker(path):
+    """own process: builds the robot, runs the passes, prints the observations."""
+    case = json.load(open(path))
+    ops, where = case["ops"], case["where"]
+    obs = [None] * len(ops)
+
+    def out():
+        print("C09LOOP" + json.dumps([o if o is not None else ["bad", "harness: the operation was never reached"] for o in obs]))
+        sys.stdout.flush()
+
+    init_clock()
+    import hal.simulation
+    import magicbot
+    mt = impl()
+    _KEEP_MODULES[0] = True
+    paused = case.get("clock") == "paused"
+    info, valid = annotate(case)
+    pool = {}
+    try:
+        clss = [make_class(mt, ds, "Cls%d" % k, case["split"][k], case_src(case, k), case_tkind(case, k), case_hier(case, k), pool)
+                for k, ds in enumerate(case["classes"])]
+    except Exception as e:
+        obs[:] = [["classraise", type(e).__name__, str(e)[:120]]] * len(ops)
+        return out()
+    if paused:
+        hal.simulation.pauseTiming()
+    objs = [None] * len(case["insts"])
+    runner = OpRunner(mt, case, paused, clss, objs, info, nt_now() if paused else None)
+    state = {"pass": None}
+
+    def group(kind, i=None):
+        for n, op in enumerate(ops):
+            w = where[n]
+            if w[0] == kind and (len(w) < 2 or w[1] == state["pass"]) and (i is None or w[2] == i):
+                obs[n] = runner.run(n, op)
+
+    def execute(self):
+        group("execute", self._c09_index)
+
+    def get_c09probe(self):
+        group("feedback", self._c09_index)
+        return 0
+
+    for cls in clss:
+        cls.execute = execute
+        cls.get_c09probe = mt.feedback(get_c09probe)
+
+    def teleopPeriodic(self):
+        group("teleop")
+
+    group("pre")
+    try:
+        R = type("C09LoopRobot", (magicbot.MagicRobot,), {
+            "__annotations__": {nm: clss[c] for nm, c in zip(case["names"], case["insts"])},
+            "createObjects": lambda self: None, "teleopPeriodic": teleopPeriodic})
+        robot = R()
+        robot.robotInit()
+        for i, nm in enumerate(case["names"]):
+            objs[i] = getattr(robot, nm)
+            objs[i]._c09_index = i
+        order = [nm for nm, _ in robot._components]
+    except Exception as e:
+        obs[:] = [["bad", "the robot does not come up: %s: %s" % (type(e).__name__, str(e)[:100])]] * len(ops)
+        return out()
+    if order != list(case["names"]):
+        obs[:] = [["bad", "harness: components execute in the order %r" % (order,)]] * len(ops)
+        return out()
+    for n, op in enumerate(ops):
+        if where[n][0] == "init":
+            obs[n] = ["setup", True] if isinstance(getattr(objs[op[1]], "_tunables", None), dict) else ["setup", False, "not bound by robotInit"]
+    for p, kind in enumerate(list(case["passes"]) + [None]):
+        state["pass"] = p
+        group("between")
+        try:
+            if kind == "enabled":
+                robot.teleopPeriodic()
+                robot._enabled_periodic()
+            elif kind == "periodics":
+                robot._do_periodics()
+        except Exception as e:
+            for n in range(len(ops)):
+                if obs[n] is None and len(where[n]) > 1 and where[n][1] == p:
+                    obs[n] = ["bad", "the pass raised %s: %s" % (type(e).__name__, str(e)[:80])]
+    out()
+
+
+def exec_loop_case(work, case, slot=0):
+    """runs a loop case in a process of its own; returns one observation per op."""
+    d = os.path.join(work, "loop_%d" % slot)
+    os.makedirs(d, exist_ok=True)
+    path = os.path.join(d, "case.json")
+    json.dump(case, open(path, "w"))
+    env = dict(os.environ)
+    root = os.path.dirname(os.path.dirname(os.path.abspath(__file__)))
+    env["PYTHONPATH"] = REPO + os.pathsep + root
+    try:
+        p = subprocess.run([sys.executable, "-c", "from harness import c09; c09.loop_worker(%r)" % path], cwd=d, env=env,
+                           stdout=subprocess.PIPE, stderr=subprocess.STDOUT, text=True, timeout=120)
+    except subprocess.TimeoutExpired:
+        return [["bad", "the robot process did not finish"]] * len(case["ops"])
+    for line in p.stdout.splitlines():
+        if line.startswith("C09LOOP"):
+            return json.loads(line[len("C09LOOP"):])
+    return [["bad", "the robot process died: %s" % p.stdout[-300:]]] * len(case["ops"])
+
+
+def exec_loop_cases(work, cases):
+    from concurrent.futures import ThreadPoolExecutor
+    with ThreadPoolExecutor(max_workers=8) as ex:
+        return list(ex.map(lambda kc: exec_loop_case(work, kc[1], kc[0]), enumerate(cases)))
+
+
+def gen_loop_case(r, tag):
+    """components of a real MagicRobot that assign and read their tunables from inside execute() / a @feedback
+    getter / the robot's teleopPeriodic(), interleaved with dashboard writes issued during the same pass
+    (from an earlier component's execute(), from teleopPeriodic) and between passes."""
+    ncls = r.choice([1, 1, 2])
+    classes, split, srcs, tkinds, hiers = [], [], [], [], []
+    for c in range(ncls):
+        srcs.append(r.choice([0, 1, 2]))
+        tkinds.append(r.choice([None, None, None, "len", "bool"]))
+        ds = sorted((gen_decl(r, "%s_%s" % (a, tag)) for a in r.sample(ATTR_POOL, r.choice([1, 2, 3]))), key=lambda d: d["attr"])
+        classes.append(ds)
+        hiers.append(gen_hier(r, ds, tag) if r.random() < 0.25 else None)
+        split.append(0 if hiers[-1] is not None or r.random() < 0.7 else r.randrange(len(ds)))
+    ncomp = r.choice([1, 2, 2, 3])
+    insts = [r.randrange(ncls) for _ in range(ncomp)]
+    names = ["c%d_%s" % (i, tag) for i in range(ncomp)]
+    paused = r.random() < 0.5
+    stamping = r.random() < 0.4
+    ops, where = [], []
+
+    def add(op, w):
+        ops.append(op)
+        where.append(w)
+
+    keys = []                                        # (key, ts, kind, i, attr)
+    for i in range(ncomp):
+        for d in classes[insts[i]]:
+            if not d["attr"].startswith("_"):
+                keys.append((doc_key("components", names[i], d["subtable"], d["attr"]),
+                             (ARRAY_TS if d["kind"][1] else SCALAR_TS)[d["kind"][0]], tuple(d["kind"]), i, d["attr"]))
+    for key, ts, kind, i, a in keys:
+        if r.random() < 0.25:
+            add(["ntw", key, ts, gen_value(r, kind)], ["pre"])       # the dashboard's value is already there
+    for i in range(ncomp):
+        add(["setup", i, "components", names[i]], ["init"])
+
+    def stamp():
+        return [r.choice(["same", "now", "now"])] if stamping and r.random() < 0.5 else []
+
+    def some_ops(w, me, n):
+        """n ops at location w; `me`: the component whose code runs (None: the robot's / the harness's)"""
+        k = 0
+        while k < n:
+            k += 1
+            key, ts, kind, i, a = r.choice(keys)
+            if me is not None and r.random() < 0.75:
+                key, ts, kind, i, a = r.choice([x for x in keys if x[3] == me] or keys)   # mostly its own tunables
+            x = r.random()
+            if x < 0.22:
+                # the dashboard changes a value during the pass, the component then assigns the same tunable and reads it
+                add(["ntw", key, ts, gen_value(r, kind)] + stamp(), w)
+                if paused and r.random() < 0.3:
+                    add(["tick", r.choice([1, 5000])], w)
+                add(["pyw", i, a, gen_value(r, kind, pyform=True)], w)
+                add(["pyr", i, a], w)
+            elif x < 0.45:
+                add(["pyw", i, a, gen_value(r, kind, pyform=True)], w)
+            elif x < 0.7:
+                add(["pyr", i, a], w)
+            elif x < 0.82:
+                add(["ntw", key, ts, gen_value(r, kind)] + stamp(), w)
+            elif x < 0.92 or not paused:
+                add(["ntr", key], w)
+            else:
+                add(["tick", r.choice([1, 5000, 20000])], w)
+
+    passes = []
+    for p in range(r.randrange(3, 8)):
+        kind = "enabled" if r.random() < 0.8 else "periodics"
+        passes.append(kind)
+        some_ops(["between", p], None, r.choice([0, 0, 1, 2]))
+        if paused and r.random() < 0.6:
+            add(["tick", 20000], ["between", p])
+        if kind == "enabled":
+            some_ops(["teleop", p], None, r.choice([0, 0, 1]))
+            for i in range(ncomp):
+                some_ops(["execute", p, i], i, r.choice([0, 1, 2, 3]))
+        for i in range(ncomp):
+            some_ops(["feedback", p, i], i, r.choice([0, 0, 1]))
+    for key, ts, kind, i, a in keys:
+        if r.random() < 0.6:
+            add(["pyr", i, a], ["between", len(passes)])
+        if r.random() < 0.4:
+            add(["ntr", key], ["between", len(passes)])
+    case = {"tag": tag, "robot": True, "classes": classes, "split": split, "src": srcs, "tkind": tkinds, "insts": insts,
+            "names": names, "passes": passes, "ops": ops, "where": where}
+    if any(h is not None for h in hiers):
+        case["hier"] = hiers
+    if paused:
+        case["clock"] = "paused"
+    return case
+
+
+def shrink_loop_case(work, case, v0, budget=24):
+    """greedy and coarse (every attempt is a robot process): whole passes, then single operations."""
+    fp = v0["fingerprint"]
+    best = case
+
+    def failing(c):
+        c2 = retag(c, fresh_tag())
+        v = oracle_case(c2, exec_loop_case(work, c2, 99))
+        return v is not None and v["fingerprint"] == fp
+
+    def without(c, pred):
+        keep = [n for n in range(len(c["ops"])) if not pred(n)]
+        c2 = dict(c)
+        c2["ops"] = [c["ops"][n] for n in keep]
+        c2["where"] = [c["where"][n] for n in keep]
+        return c2
+
+    for p in range(len(best["passes"]), -1, -1):
+        if budget <= 0:
+            break
+        if not any(len(w) > 1 and w[1] == p for w in best["where"]):
+            continue
+        cand = without(best, lambda n: len(best["where"][n]) > 1 and best["where"][n][1] == p)
+        budget -= 1
+        if failing(cand):
+            best = cand
+    for n in range(len(best["ops"]) - 1, -1, -1):
+        if budget <= 0:
+            break
+        if best["where"][n][0] == "init":
+            continue
+        cand = without(best, lambda m: m == n)
+        budget -= 1
+        if failing(cand):
+            best = cand
+    # components no operation mentions, classes no component uses
+    used = sorted(set(op[1] for op, w in zip(best["ops"], best["where"]) if w[0] != "init" and op[0] in ("pyw", "pyr", "truth"))
+                  | set(w[2] for w in best["where"] if len(w) > 2))
+    if used and len(used) < len(best["insts"]):
+        ren = {i: n for n, i in enumerate(used)}
+        cand = without(best, lambda n: best["where"][n][0] == "init" and best["ops"][n][1] not in ren)
+        cand = json.loads(json.dumps(cand))
+        cand["insts"] = [best["insts"][i] for i in used]
+        cand["names"] = [best["names"][i] for i in used]
+        for op in cand["ops"]:
+            if op[0] in ("setup", "pyw", "pyr", "truth"):
+                op[1] = ren[op[1]]
+        for w in cand["where"]:
+            if len(w) > 2:
+                w[2] = ren[w[2]]
+        if failing(cand):
+            best = cand
+    usedc = sorted(set(best["insts"]))
+    if len(usedc) < len(best["classes"]):
+        cand = json.loads(json.dumps(best))
+        for field in ("classes", "split", "src", "tkind", "hier"):
+            if cand.get(field) is not None:
+                cand[field] = [cand[field][c] for c in usedc]
+        cand["insts"] = [usedc.index(c) for c in best["insts"]]
+        if failing(cand):
+            best = cand
+    return best
+
+
+def describe_where(w):
+    return {"pre": "before the robot exists", "init": "robotInit()", "between": "between the passes",
+            "teleop": "in teleopPeriodic()", "execute": "in execute() during _enabled_periodic()",
+            "feedback": "in a @feedback getter during _do_periodics()"}[w[0]] + (
+        "" if len(w) < 2 else " [pass %d%s]" % (w[1], "" if len(w) < 3 else ", component %d" % w[2]))
+
+
+def violation_of_loop_case(work, case):
+    c = retag(case, fresh_tag())
+    v = oracle_case(c, exec_loop_case(work, c, 98))
+    if v is None:
+        return None
+    c = retag(shrink_loop_case(work, c, v), fresh_tag())
+    o = exec_loop_case(work, c, 98)
+    v2 = oracle_case(c, o)
+    if v2 is None:
+        return None
+    v2["case"] = strip_case(c)
+    v2["observations"] = o
+    v2["what"] += ("   [a real MagicRobot with components %s; passes %s; %s: %s]   [classes: %s]" % (
+        ", ".join("%s: Cls%d" % (nm, k) for nm, k in zip(c["names"], c["insts"])), json.dumps(c["passes"]),
+        "NT clock paused, stepped by the `tick` ops" if c.get("clock") == "paused" else "NT clock running",
+        " ".join("%s@%s" % (json.dumps(op), "/".join(str(x) for x in w)) for op, w in zip(c["ops"], c["where"]) if w[0] != "init"),
+        describe_classes(c)))
+    return v2
+
+
+# ---------------------------------------------------------------------------
 # run / search / replay
 # ---------------------------------------------------------------------------
 _TAGS = [0]
@@ -3098,11 +3421,30 @@ def run(ctx):
     ncorpus = len(cases)
     while len(cases) < ncorpus + n:
         cases.append(gen_case(ctx.rng, fresh_tag()))
+    # loop cases: the components of a real MagicRobot access their tunables from inside the framework's loop
+    # functions (one robot process each, 8 at a time)
+    nloop = 24 if quick else 240
+    lcases = [c for c in cases if c.get("robot")] + [gen_loop_case(ctx.rng, fresh_tag()) for _ in range(nloop)]
+    cases = [c for c in cases if not c.get("robot")] + lcases
+    lobs = dict(zip((id(c) for c in lcases), exec_loop_cases(ctx.work, lcases)))
     pairs = []
     distinct = set()
     for c in cases:
-        o = exec_case(mt, c)
+        o = lobs[id(c)] if c.get("robot") else exec_case(mt, c)
         pairs.append((c, o))
+        if c.get("robot"):
+            ctx.count("loop-case:components=%d/passes=%d" % (len(c["insts"]), min(len(c["passes"]), 6)))
+            saw_nt = {}
+            for nop, op in enumerate(c["ops"]):
+                w = c["where"][nop]
+                ctx.count("loop:%s from %s" % (op[0], w[0]))
+                # an assignment that follows, in the same pass, a dashboard update of the same topic
+                if op[0] == "ntw" and len(w) > 1 and w[0] != "between":
+                    saw_nt[op[1]] = w[1]
+                if op[0] == "pyw" and len(w) > 1 and w[0] != "between":
+                    d = next((d for d in c["classes"][c["insts"][op[1]]] if d["attr"] == op[2]), None)
+                    if d is not None and saw_nt.get(doc_key("components", c["names"][op[1]], d["subtable"], d["attr"])) == w[1]:
+                        ctx.count("loop:assignment after a dashboard update of the same topic in the same pass")
         tstates = truth_states(c)
         for nop, op in enumerate(c["ops"]):
             ctx.count("op=%s" % op[0])
@@ -3217,8 +3559,13 @@ def run(ctx):
                 "instances constructed one by one right before their first use in 40-70% of the histories with >= 2 instances (else all up front), in 30% "
                 "class attributes are assigned between setups at 7% of the ops (tunable replaced by one of the same topic type with another default / "
                 "writeDefault / subtable, tunable added, plain value over a tunable), 80% followed by the setup of an instance of that class; "
+                "LOOP CASES (%d per run, one robot process each): 1-3 components (1-2 generated classes) of a real MagicRobot built with robotInit(); 3-7 passes "
+                "(robot.teleopPeriodic(); robot._enabled_periodic() 80%% / robot._do_periodics() 20%%) in which the components assign and read their own (75%%) and each "
+                "other's tunables from inside execute(), a @feedback getter and teleopPeriodic(), interleaved with dashboard writes issued during the same pass through "
+                "a separate publisher (22%% of the in-pass steps are: dashboard update, [clock step], assignment of the same tunable, read) and between passes, "
+                "pre-published values, paused clock 50%%, client timestamps same/now 20%%; "
                 "non-trivial = >=2 setups and "
-                "all four of PyWrite, PyRead, NtWrite, NtRead occur; distinct up to the per-case name tag",
+                "all four of PyWrite, PyRead, NtWrite, NtRead occur; distinct up to the per-case name tag" % nloop,
         "exhaustive": False,
         "exhaustive_parts": ["type grid: all %d points of Model.grid_decls (159 defaults x (no hint + 237 hints))%s"
                              % (len(grid), " (point i written in spelling i mod %d)" % len(GRID_COMBOS) if quick
@@ -3229,6 +3576,9 @@ def run(ctx):
         "samples": [{"ops": c["ops"][:6], "observations": o[:6]} for c, o in pairs[ncorpus:ncorpus + 3]],
     })
 
+    def violation_of(c):
+        return violation_of_loop_case(ctx.work, c) if c.get("robot") else violation_of_case(mt, c)
+
     def search():
         found = []
         # 1. the disagreeing cases themselves
@@ -3238,7 +3588,7 @@ def run(ctx):
             if v0 is not None:
                 (later if v0["fingerprint"] == "c09-topic-outside-documented-keys" else first).append(i)
         for i in first + later:
-            v = violation_of_case(mt, pairs[i][0])
+            v = violation_of(pairs[i][0])
             if v:
                 return [v]
         for pi, i in gbad[:200]:
@@ -3266,7 +3616,7 @@ def run(ctx):
         # 2. everything recorded in this run, then a bigger batch
         for c, o in pairs:
             if oracle_case(c, o) is not None:
-                v = violation_of_case(mt, c)
+                v = violation_of(c)
                 if v:
                     return [v]
         for pi, observed in enumerate(gobs_all):
@@ -3288,6 +3638,13 @@ def run(ctx):
                 v = violation_of_case(mt, c)
                 if v:
                     return [v]
+            if k % 400 == 0:
+                more = [gen_loop_case(ctx.rng, fresh_tag()) for _ in range(16)]
+                for c2, o2 in zip(more, exec_loop_cases(ctx.work, more)):
+                    if oracle_case(c2, o2) is not None:
+                        v = violation_of_loop_case(ctx.work, c2)
+                        if v:
+                            return [v]
         return found
 
     return ctx.finish(search=search)
@@ -3318,9 +3675,17 @@ def replay(ctx, obj):
                 print("Cls%d = type(...)%s: %s" % (k, "" if tk is None else " [%s; instances are created falsy]" % (
                     {"len": "defines __len__", "bool": "defines __bool__", "list": "subclass of list"}[tk]),
                     "; ".join(describe_member(d, 0) for d in ds)))
-        o = exec_case(mt, c)
-        for op, ob in zip(c["ops"], o):
-            print("  %-90s -> %s" % (describe_op(op)[:140], json.dumps(ob)[:120]))
+        if c.get("robot"):
+            print("# a real MagicRobot (own process) with the components %s; pass p = robot.teleopPeriodic(); robot._enabled_periodic()"
+                  " (\"enabled\") resp. robot._do_periodics() (\"periodics\"): %s" % (
+                      ", ".join("%s: Cls%d" % (nm, k) for nm, k in zip(c["names"], c["insts"])), json.dumps(c["passes"])))
+            o = exec_loop_case(ctx.work, c, 97)
+            for op, w, ob in zip(c["ops"], c["where"], o):
+                print("  %-70s %-62s -> %s" % (describe_op(op)[:120], describe_where(w), json.dumps(ob)[:120]))
+        else:
+            o = exec_case(mt, c)
+            for op, ob in zip(c["ops"], o):
+                print("  %-90s -> %s" % (describe_op(op)[:140], json.dumps(ob)[:120]))
         v = oracle_case(c, o)
         if v is not None:
             print("fails: %s" % v["what"])
